@@ -121,7 +121,7 @@ def transfer_contract(ck, ld):
                         ok = ok and seg_ok
                     ok = ok and pos == len(trace)
                     detail = "trace %s" % (trace[:8],)
-            ck.struct("transfer.exactly_the_listing", bool(ok), "%s: %s" % (tag, detail), {"attr": tag, "no_input": False})
+            ck.struct("transfer.exactly_the_listing", bool(ok), "%s: %s" % (tag, detail), {"attr": tag})
     ck.enumerations.append(("transfer.exactly_the_listing", ncase, 0, []))
 
 
